@@ -98,6 +98,12 @@ def harness(item):
             open(existing, "w").write("KEEP")
             open(os.path.join(d, "existing.json"), "w").write("KEEP")
             os.mkdir(os.path.join(d, "adir"))
+            # decoy siblings of every name the run may be asked to write (temporary / backup / extension variants)
+            for base in ("new", "new.json"):
+                for pat in ("{}.tmp", "{}.bak", "{}~", ".{}.swp", "{}.part", "{}.json", "{}.txt"):
+                    nme = pat.format(base)
+                    if nme not in ("new.json",) and not os.path.exists(os.path.join(d, nme)):
+                        open(os.path.join(d, nme), "w").write("KEEP-" + nme)
             argv = []
             fpath = None
             if c["file"]:
@@ -140,7 +146,8 @@ def harness(item):
             if b == "unknown_option":
                 argv = ["--frobnicate"] + argv
                 invalid = True
-            before = {f: open(os.path.join(d, f)).read() for f in ("existing", "existing.json")}
+            keep = [f for f in os.listdir(d) if os.path.isfile(os.path.join(d, f))]
+            before = {f: open(os.path.join(d, f)).read() for f in keep}
             listing_before = set(os.listdir(d))
             runs = [("in-process", run_inprocess(argv))]
             if idx % 4 == 0 and fpath is None:
@@ -148,8 +155,8 @@ def harness(item):
             for how, (code, out, err) in runs:
                 evals += 1
                 tag = f"{how} argv={argv!r}"
-                after = {f: open(os.path.join(d, f)).read() for f in ("existing", "existing.json")}
-                check(after == before, f"{tag}: an existing file was modified")
+                after = {f: (open(os.path.join(d, f)).read() if os.path.isfile(os.path.join(d, f)) else None) for f in keep}
+                check(after == before, f"{tag}: an existing file was modified or removed: {[f for f in keep if after[f] != before[f]]}")
                 if invalid:
                     check(code != 0, f"{tag}: invalid arguments but exit status 0")
                     check(not any(k in out for k in ('"groups"', '"MASTER"', '"account_extended_keys"', MN)), f"{tag}: wallet data on stdout despite invalid arguments")
